@@ -15,6 +15,7 @@
 #   RS2COQ_OUT      old interface: ONLY Src.v is generated, into this file (the one-argument CLI
 #                   of the binary; used by selftest.sh)
 #   RS2COQ_TARGET   cargo target directory                     (default /verif/.cache/rs2coq-target)
+# The first line printed is `rs2coq/run.sh: source directory <dir> -> <where the output goes>`.
 # Each output file is only rewritten when its content changes (so `make` does not rebuild
 # needlessly).  A function that cannot be translated (construct outside the supported subset) is
 # OMITTED from the output, together with its callers; the line `rs2coq: omitted: <names|none>` is
@@ -25,6 +26,13 @@ set -u
 HERE="$(cd "$(dirname "$0")" && pwd)"
 SRC="${RS2COQ_SRC:-/repo/src}"
 OUT_DIR="${1:-${RS2COQ_OUT_DIR:-/verif/coq/gen}}"
+# the first output line names the tree that is translated and where the result goes (an RS2COQ_SRC /
+# RS2COQ_OUT_DIR / RS2COQ_OUT inherited from the caller's environment must not go unnoticed)
+if [ -n "${RS2COQ_OUT:-}" ] && [ $# -eq 0 ]; then
+  echo "rs2coq/run.sh: source directory $SRC -> $RS2COQ_OUT (Src.v only)"
+else
+  echo "rs2coq/run.sh: source directory $SRC -> $OUT_DIR"
+fi
 export CARGO_TARGET_DIR="${RS2COQ_TARGET:-/verif/.cache/rs2coq-target}"
 export CARGO_NET_OFFLINE=true
 mkdir -p "$CARGO_TARGET_DIR"
